@@ -87,7 +87,7 @@ def make(kind, env, seed=0, **kw):
         from rl4co.models.zoo.polynet.policy import PolyNetPolicy
 
         p = PolyNetPolicy(k=kw.pop("k", 3), env_name=name, embed_dim=32, num_encoder_layers=1, num_heads=2, **kw)
-    elif kind == "nar":
+    elif kind in ("nar", "deepaco"):
         # the bundled NON-autoregressive policy machinery (heat-map decoder + ConstructivePolicy decode loop). Its bundled encoders
         # (NARGNN / DeepACO) need torch_geometric, which is not installed; a tiny per-instance heat-map encoder stands in for them
         import torch.nn as nn
@@ -105,7 +105,14 @@ def make(kind, env, seed=0, **kw):
                 feat = torch.cat((d, d.norm(dim=-1, keepdim=True), x[:, :, None, :].expand(-1, -1, x.shape[1], -1)), -1)
                 return self.net(feat).squeeze(-1), None
 
-        p = NonAutoregressivePolicy(encoder=TinyHeatmapEncoder(), env_name=name, **kw)
+        if kind == "deepaco":
+            # DeepACO's policy class on the same stand-in encoder: its train phase is a multi-start sampling rollout with n_ants starts
+            from rl4co.models.zoo.deepaco.policy import DeepACOPolicy
+
+            # (local search needs numba, which is not installed: trained without it, a documented switch)
+            p = DeepACOPolicy(encoder=TinyHeatmapEncoder(), env_name=name, train_with_local_search=False, ls_reward_aug_W=0.0, **kw)
+        else:
+            p = NonAutoregressivePolicy(encoder=TinyHeatmapEncoder(), env_name=name, **kw)
     elif kind == "matnet_ffsp":
         # MatNet for the flexible flow shop as originally implemented: one encoder / decoder per stage, decode loop on policy level
         from rl4co.models.zoo.matnet.policy import MultiStageFFSPPolicy
